@@ -3,9 +3,10 @@
      cddl_from_str        = parse; duplicate check
      CDDL::from_slice     = parse; duplicate check; undefined-reference check.
 
-   Phase 1 (collect_definitions): for every rule, the text of the [id] child of its head
-   typename/groupname - i.e. WITHOUT the socket prefix - goes into `defined`; its generic
-   parameter names go into a map keyed by the rule (the code keys by the rule's start
+   Phase 1 (collect_definitions): for every rule whose head typename/groupname has NO
+   socket_type / socket_group child, the text of the head's [id] child goes into `defined`
+   (since /repo commit a8c9ab3 a head "$x" / "$$x" is not recorded: it defines the socket, not
+   the plain name x); its generic parameter names go into a map keyed by the rule (the code keys by the rule's start
    offset, unique per rule; the model keys by the rule's index) when there is at least one.
    Phase 2 (RefFinder::walk): rules in order, `current_rule_generics` = the map entry of the
    rule; every typename/groupname child of a type2 / group_entry pair, in document order,
@@ -23,7 +24,7 @@ Fixpoint collect (d : doc) (idx : nat) (defined : hset) (gens : list (nat * hset
   match d with
   | [] => (defined, gens)
   | r :: rest =>
-      let defined' := rid r :: defined in
+      let defined' := if N.eqb (rsock r) 0 then rid r :: defined else defined in   (* if !is_socket *)
       let gens' := match rparams r with
                    | [] => gens                       (* if !generic_params_for_rule.is_empty() *)
                    | _ :: _ => (idx, rparams r) :: gens
@@ -121,7 +122,7 @@ Definition render_verdict (v : verdict) : list N :=
   | VUndef i j n => [85; 78; 68; 69; 70; 32]%N ++ dec i ++ [32]%N ++ dec j ++ [32]%N ++ n   (* "UNDEF i j name" *)
   end.
 
-(* plain TAB checked(model) TAB checked(specification) TAB classifier bit *)
+(* plain TAB checked(model) TAB checked(specification) TAB class marker (statistics only) *)
 Definition c12_render (d : doc) : list N :=
   render_verdict (plain_parse d) ++ [9]%N ++ render_verdict (checked_parse d) ++ [9]%N ++
   render_verdict (checked_spec d) ++ [9]%N ++ (if kf_socket_shadow d then [49]%N else [48]%N).
